@@ -275,3 +275,49 @@ def reader_consumer(ctx: Ctx) -> None:
             if not (isinstance(gen.elt, ast.Name) and gen_targets and gen.elt.id == gen_targets[0]):
                 problems.append(f'the generator yields `{norm(gen.elt)}`, not the label of its iteration')
         (ctx.bad if problems else ctx.ok)(R, f, gen, '; '.join(problems) or 'generator and loop walk the same snapshot with the same placeholder test', key=key + ':agreement')
+
+
+def member_name_inverse(ctx: Ctx) -> None:
+    R = 'I.member-name-inverse'
+    ctx.rule(R, 'the zip store writes each Frame under `<encoded label> + <class extension>` and lists labels from the archive\'s member names: the listing inverts '
+             'exactly that — it removes the extension as a suffix (endswith / slice by its length / removesuffix); `.replace(ext, ...)`, `.split(ext)` or '
+             '`.strip(ext)` also cut the extension text out of the middle of a label (`x.csv.old` comes back as `x.old` and cannot be read)', floor=1)
+    prog = ctx.prog
+    k = prog.cls('_StoreZip')
+    # the extension attribute: right operand of `+` in the member name handed to the archive writer
+    ext: tp.Set[str] = set()
+    for defs in k.method_defs.values():
+        for f in defs:
+            for c in walk_local(f.node):
+                if isinstance(c, ast.Call) and isinstance(c.func, ast.Attribute) and c.func.attr == 'writestr' and c.args:
+                    a = c.args[0]
+                    if isinstance(a, ast.BinOp) and isinstance(a.op, ast.Add) and isinstance(a.right, ast.Attribute) and isinstance(a.right.value, ast.Name) \
+                            and a.right.value.id == f.self_name():
+                        ext.add(a.right.attr)
+    ctx.require(len(ext) == 1, 'the writer of _StoreZip names archive members `<label> + self.<EXT>`')
+    x = next(iter(ext))
+    n = 0
+    for defs in k.method_defs.values():
+        for f in defs:
+            loops = [lp for lp in walk_local(f.node) if isinstance(lp, ast.For) and isinstance(lp.iter, ast.Call) and isinstance(lp.iter.func, ast.Attribute)
+                     and lp.iter.func.attr == 'namelist']
+            for lp in loops:
+                n += 1
+                sn = f.self_name()
+
+                def is_ext(e: ast.AST) -> bool:
+                    return isinstance(e, ast.Attribute) and e.attr == x and isinstance(e.value, ast.Name) and e.value.id == sn
+                uses = [c for c in ast.walk(lp) if isinstance(c, ast.Call) and isinstance(c.func, ast.Attribute) and any(is_ext(a) for a in c.args)]
+                cutters = [c for c in uses if c.func.attr in ('replace', 'split', 'rsplit', 'strip', 'rstrip', 'lstrip', 'partition', 'rpartition', 'translate')]
+                suffix = [c for c in uses if c.func.attr in ('endswith', 'removesuffix')] + \
+                         [c for c in ast.walk(lp) if isinstance(c, ast.Call) and call_name(c) == 'len' and c.args and is_ext(c.args[0])]
+                key = f'{f.name}:namelist'
+                if cutters:
+                    c = cutters[0]
+                    ctx.bad(R, f, c, f'`{norm(c)[:60]}` removes the extension text wherever it occurs in the member name, not only the suffix the writer appended: a label '
+                            'containing the extension text does not round-trip', key=key)
+                elif suffix:
+                    ctx.ok(R, f, lp, f'member names are cut at the suffix (`{norm(suffix[0])[:40]}`)', key=key)
+                else:
+                    ctx.unk(R, f, lp, 'member names are listed without a recognised inverse of the writer\'s `+ extension`', key=key)
+    ctx.require(n >= 1, 'a listing of archive member names in _StoreZip')
